@@ -41,6 +41,19 @@ and of its explicit cause chain and is NOT changed by what was being handled whe
 The workload therefore raises catalogue values in every "raise mode" of CONTEXT_MODES below (tokens
 `NAME@MODE:CONTEXT-NAME` in a sequence) and also runs whole retried calls inside a caller's `except` block
 (`ambient`), where every failure of the operation gets the caller's exception as context.
+
+Neighbourhood of the documented lists ("raise ANY OTHER error immediately" for errors that sit right next to a listed one).
+The listed errors are members of class hierarchies and of numeric ranges: ConnectionResetError / ConnectionRefusedError have the
+siblings ConnectionAbortedError and BrokenPipeError and the base ConnectionError (which libraries subclass); the seven errnos are
+seven of ~130; the six statuses are six of the 4xx / 5xx range.  A classifier that tests the base class, a range or a superset
+instead of the listed members classifies exactly the listed rows as before and is only visible on the unlisted neighbours.  The
+rows of build_neighbourhood() are therefore generated (not hand-picked) from literal copies of the documented lists, and every one is
+run at the positions the loop's branch order distinguishes (1st failure, after T / R / L failures, 5th and 6th failure, 7 in a row):
+   unlisted neighbour (P)          -> propagates at once at every position             key permanent/retried/unlisted-neighbour
+   listed errno / status in an unusual class (T / R / TL / L) -> as the catalogue classes
+   undetermined (BrokenPipeError without errno, the old not-judged rows) -> the statement leaves T or P open, but the limited-retry
+        class is a closed list they are not on: "retried as one failure and raised as another" (within one call or across calls
+        of the same helper family) fits neither reading                                key unlisted/retried-then-raised
 """
 import asyncio
 import errno
@@ -63,7 +76,12 @@ RULE = (
     'thorough: all x all) x the 7 raise modes (inside except / except + from None / finally / __exit__ / two-deep handler / handler of an explicitly '
     'chained wrapper / except + from a permanent cause) after 0, 1 or 2 genuine transient failures, seven-fold limited-only failures raised '
     'while handling retryable ones, and whole retried calls made inside a caller\'s except block (ambient); phase random-context: seeded sequences whose '
-    'elements are raised in random modes / ambient. '
+    'elements are raised in random modes / ambient; '
+    'phase neighbour: ~1000 generated rows around the documented lists (OSError(code) and aiohttp.ClientOSError(code) for every errno of the platform; every builtin '
+    'OSError class x {no arguments, message only, a listed errno, an unlisted errno}; user-defined subclasses of ConnectionError / OSError; bases and siblings of the '
+    'listed aiohttp classes; aiohttp and hailtop.httpx response errors for every status 300..599; RuntimeError explicitly caused by each class-shaped row) and the '
+    'undetermined rows, each as the only failure, after transient / rate-limit / limited failures, as the 5th and as the 6th failure and seven times in a row, through '
+    'an async helper and the sync helper; phase random-neighbour: seeded sequences mixing these rows with catalogue rows. '
     'Distinct = (helper, sequence of catalogue names with raise mode and handled value, ambient handled value); non-trivial = at least one failure.'
 )
 ASSUMPTIONS = [
@@ -72,6 +90,9 @@ ASSUMPTIONS = [
     'aiohttp / socket / OSError exception classes are the installed real ones; stub-only classes are excluded',
     'an exception that was merely being handled when a failure was raised (__context__, also under `from None`) is not a cause of that failure: '
     'the class of a failure is that of its own value and explicit __cause__ chain',
+    'the errno list, the status-code comment and the two retry-once classes are closed lists: an OSError-family value with an unlisted errno that is not a TimeoutError and '
+    'not one of the two retry-once classes, and a response error with an unlisted status, are "any other error" (BrokenPipeError without the listed errno is left undetermined)',
+    'an undetermined value is either transient or permanent, never limited-retry (except where its explicit cause is on the retry-once list)',
 ]
 TRUSTED_BASE = ['vf/sim/vloop.py', 'the CATALOGUE table in vf/monitors/c21.py', 'CPython asyncio']
 SHARDS = {'quick': 1, 'thorough': 16}
@@ -108,6 +129,24 @@ FLOORS = {
     'implicit_context:limited_sixth_while_handling_transient': 110,
     'context_modes': 8,
     'context_pairs': 100,
+    # neighbourhood of the documented lists (about half of the minimum observed in the quick tier over seeds 0..4)
+    'sequences_neighbour': 5000,
+    'sequences_random_neighbour': 1200,
+    'neighbour_rows': 500,
+    'neighbour_families': 12,
+    'neighbour:P_propagated': 5000,
+    'neighbour:P_propagated[errno]': 900,
+    'neighbour:P_propagated[errno-aiohttp]': 550,
+    'neighbour:P_propagated[oserror-class]': 370,
+    'neighbour:P_propagated[user-subclass]': 70,
+    'neighbour:P_propagated[aiohttp-base]': 60,
+    'neighbour:P_propagated[status]': 2600,
+    'neighbour:P_propagated[chained]': 500,
+    'neighbour:P_propagated_within_first_five_failures': 2600,
+    'neighbour:P_sibling_of_retry_once_classes_within_first_five_failures': 170,
+    'neighbour:retryable_retried': 1300,
+    'neighbour:limited_sixth_occurrence_checked': 6,
+    'never_limited_checked': 350,
 }
 
 MAX_MS = 60_000
@@ -239,6 +278,129 @@ def build_catalogue():
     except Exception:  # noqa: BLE001
         pass
     return C, U
+
+
+# ------------------------------------------------------------------------------------------
+# neighbourhood of the documented lists ("raise ANY OTHER error immediately")
+# ------------------------------------------------------------------------------------------
+# The documentation gives closed lists: the errno list, the status-code comment, the two classes of the "retry once"
+# list.  The hand-written catalogue above has one or two rows next to each list; the rows below are *generated* so that
+# every sibling / base class / user subclass of a listed class and every errno / status next to a listed one is a row,
+# classified by these literal copies of the documented lists (not read from the code under test):
+DOC_RETRYABLE_ERRNO_NAMES = ('EADDRNOTAVAIL', 'ETIMEDOUT', 'ECONNREFUSED', 'EHOSTUNREACH', 'ECONNRESET', 'ENETUNREACH', 'EPIPE')  # RETRYABLE_ERRNOS
+DOC_RETRYABLE_STATUSES = (408, 429, 500, 502, 503, 504)  # the status-code comment
+DOC_RATE_LIMIT_STATUS = 429
+DOC_RETRY_ONCE_CLASSES = (ConnectionResetError, ConnectionRefusedError)  # the two classes of is_limited_retries_error's "retry once" list
+# undetermined rows for which "limited-retry" is one of the possible readings (explicit cause on the retry-once list): exempt from the
+# never-limited oracle below
+MAY_BE_LIMITED = {'httpx-404<-ConnectionResetError-bare'}
+
+
+def doc_class_of_oserror(e):
+    """class the documented lists give an OSError-family value; None = not determined (recorded, only the never-limited oracle applies)"""
+    doc_errnos = {getattr(errno, n) for n in DOC_RETRYABLE_ERRNO_NAMES}
+    if isinstance(e, TimeoutError):
+        # "observed exceptions": TimeoutError [Errno 60], asyncio TimeoutError, socket.timeout -- one class since Python 3.11
+        return 'T' if (asyncio.TimeoutError is TimeoutError or e.errno in doc_errnos) else None
+    t = e.errno in doc_errnos
+    lim = isinstance(e, DOC_RETRY_ONCE_CLASSES)
+    if t:
+        return 'TL' if lim else 'T'
+    if lim:
+        return 'L'
+    if isinstance(e, BrokenPipeError):
+        return None  # the class of EPIPE (listed) without the listed errno: left open, as 'BrokenPipeError-bare' always was
+    return 'P'
+
+
+def builtin_oserror_classes():
+    out, todo = [], [OSError]
+    while todo:
+        c = todo.pop()
+        if c.__module__ == 'builtins' and c not in out:
+            out.append(c)
+            todo.extend(c.__subclasses__())
+    return sorted(out, key=lambda c: c.__name__)
+
+
+class AppConnectionError(ConnectionError):
+    """what a library / application defines for 'the connection went away': a ConnectionError, not one of the two retry-once classes"""
+
+
+class AppOSError(OSError):
+    pass
+
+
+class AppConnectionLost(ConnectionError, RuntimeError):
+    pass
+
+
+class AppTransportError(Exception):
+    """not an OSError at all; named like one"""
+
+
+def build_neighbourhood(dont_retry_500):
+    """rows (name, class | None, factory, family) around the documented lists; class None = undetermined"""
+    import aiohttp
+    import hailtop.httpx as hx
+    from multidict import CIMultiDict, CIMultiDictProxy
+    from yarl import URL
+
+    req = aiohttp.RequestInfo(URL('https://storage.example.invalid/b/o'), 'GET', CIMultiDictProxy(CIMultiDict()), URL('https://storage.example.invalid/b/o'))
+    doc_errnos = {getattr(errno, n) for n in DOC_RETRYABLE_ERRNO_NAMES}
+    N = []
+
+    def row(name, cls, fac, family):
+        assert '@' not in name, name
+        N.append((name, cls, fac, family))
+
+    def os_row(name, fac, family):
+        row(name, doc_class_of_oserror(fac()), fac, family)
+
+    # (1) errno sweep: OSError(code, strerror) for every errno the platform knows (the constructor picks the builtin subclass: ECONNABORTED ->
+    #     ConnectionAbortedError, ESHUTDOWN -> BrokenPipeError, ...), and the same through aiohttp.ClientOSError ("ClientOSError: [Errno 104]")
+    for code, ename in sorted(errno.errorcode.items()):
+        os_row(f'OSError[{ename}]', (lambda c: (lambda: OSError(c, os.strerror(c))))(code), 'errno')
+        row(f'ClientOSError[{ename}]', 'T' if code in doc_errnos else 'P', (lambda c: (lambda: aiohttp.ClientOSError(c, os.strerror(c))))(code), 'errno-aiohttp')
+    # (2) every builtin OSError class x {no arguments, message only, a listed errno, an unlisted errno}
+    for c in builtin_oserror_classes():
+        os_row(f'{c.__name__}()', c, 'oserror-class')
+        os_row(f'{c.__name__}(msg)', (lambda c: (lambda: c('connection lost')))(c), 'oserror-class')
+        os_row(f'{c.__name__}(ENETUNREACH)', (lambda c: (lambda: c(errno.ENETUNREACH, 'Network is unreachable')))(c), 'oserror-class')
+        os_row(f'{c.__name__}(ENOSPC)', (lambda c: (lambda: c(errno.ENOSPC, 'No space left on device')))(c), 'oserror-class')
+    # (3) user-defined subclasses of the bases of the listed classes
+    for c in (AppConnectionError, AppOSError, AppConnectionLost):
+        os_row(f'{c.__name__}(msg)', (lambda c: (lambda: c('peer went away')))(c), 'user-subclass')
+        os_row(f'{c.__name__}(ECONNABORTED)', (lambda c: (lambda: c(errno.ECONNABORTED, 'Software caused connection abort')))(c), 'user-subclass')
+        os_row(f'{c.__name__}(ECONNRESET)', (lambda c: (lambda: c(errno.ECONNRESET, 'Connection reset by peer')))(c), 'user-subclass')
+    row('AppTransportError', 'P', lambda: AppTransportError('connection reset by peer'), 'user-subclass')
+    # (4) bases / siblings of the listed aiohttp classes
+    row('aiohttp.ClientError', 'P', lambda: aiohttp.ClientError('client error'), 'aiohttp-base')
+    row('aiohttp.ClientConnectionError', 'P', lambda: aiohttp.ClientConnectionError('connection error'), 'aiohttp-base')
+    row('aiohttp.InvalidURL', 'P', lambda: aiohttp.InvalidURL('htp://x'), 'aiohttp-base')
+    row('aiohttp.ContentTypeError-200', 'P', lambda: aiohttp.ContentTypeError(req, (), status=200, message='Attempt to decode JSON with unexpected mimetype: text/html'), 'aiohttp-base')
+    row('aiohttp.ContentTypeError-503', 'T', lambda: aiohttp.ContentTypeError(req, (), status=503, message='Attempt to decode JSON with unexpected mimetype: text/html'), 'aiohttp-base')
+    row('aiohttp.TooManyRedirects-302', 'P', lambda: aiohttp.TooManyRedirects(req, (), status=302, message='Found'), 'aiohttp-base')
+    row('aiohttp.WSServerHandshakeError-403', 'P', lambda: aiohttp.WSServerHandshakeError(req, (), status=403, message='Invalid response status'), 'aiohttp-base')
+    # (5) status sweep through both response-error classes (body / message not on any list)
+    for st in range(300, 600):
+        if st in DOC_RETRYABLE_STATUSES:
+            cls = 'R' if st == DOC_RATE_LIMIT_STATUS else ('P' if (st == 500 and dont_retry_500) else 'T')
+        else:
+            cls = 'P'
+        row(f'aiohttp[{st}]', cls, (lambda s: (lambda: aiohttp.ClientResponseError(req, (), status=s, message='status sweep')))(st), 'status')
+        row(f'httpx[{st}]', cls, (lambda s: (lambda: hx.ClientResponseError(req, (), body='status sweep', status=s, message='status sweep')))(st), 'status')
+    # (6) application errors explicitly caused by (`raise ... from`) the rows of (2)-(4): "chained via __cause__" gives them the class of the cause
+    chained = []
+    for name, cls, fac, family in N:
+        if family in ('oserror-class', 'user-subclass', 'aiohttp-base'):
+            def f(fac=fac):
+                o = RuntimeError('request failed')
+                o.__cause__ = fac()
+                return o
+            chained.append((f'RuntimeError<-{name}', cls, f, 'chained'))
+    N.extend(chained)
+    return N
 
 
 ENUM_ALPHABET = [
@@ -389,6 +551,20 @@ def run(ctx):
         ctx.seen('catalogue_rows', f'{cls}:{name}')
     for name, _ in U:
         ctx.seen('undetermined_rows_not_judged', name)
+    # neighbourhood of the documented lists (generated rows; usable in sequences like catalogue rows, but not part of the catalogue-wide phases)
+    NB = build_neighbourhood(os.environ.get('HAIL_DONT_RETRY_500') == '1')
+    nb_family = {}
+    for name, cls, fac, family in NB:
+        assert name not in by_name, name
+        by_name[name] = (cls, fac)
+        nb_family[name] = family
+        ctx.seen('neighbour_rows', f'{cls or "U"}:{name}')
+        ctx.seen('neighbour_families', f'{family}:{cls or "U"}')
+    # the undetermined rows can appear in sequences too (class None = not judged as T or P; only the never-limited oracle applies)
+    for name, fac in U:
+        by_name[name] = (None, fac)
+    # undetermined value -> {'retried' | 'propagated': first sequence in which it was observed}, per helper family (never-limited oracle across runs)
+    undetermined_behaviour = {}
     # classes the code mentions but which only exist as inert stubs here
     for modname, attr in (
         ('botocore.exceptions', 'ConnectionClosedError'), ('urllib3.exceptions', 'ReadTimeoutError'), ('requests.exceptions', 'ReadTimeout'),
@@ -498,6 +674,7 @@ def run(ctx):
         # ---- classification walk --------------------------------------------------------------
         n_L = 0
         verdict_done = False
+        undetermined_here = {}
         # was the workload what it claims to be: did the interpreter really record a handled exception on the failure?
         for idx, e in enumerate(raised_objs):
             expected = seq[idx][4] is not None or ambient is not None
@@ -532,6 +709,29 @@ def run(ctx):
             if not judged or cls is None:
                 ctx.count('undetermined_propagated' if propagated else 'undetermined_retried')
                 ctx.seen('undetermined_observed', f'{name}@{helper}:{"propagated" if propagated else "retried"}')
+                if name not in MAY_BE_LIMITED and not in_ctx:
+                    # never-limited: the statement leaves open whether this value is transient or permanent, but the limited-retry class is a
+                    # closed documented list it is not on.  Transient => retried at every position, permanent => raised at every position;
+                    # "retried as one failure and raised as another" is the limited treatment and fits neither reading.
+                    what_now = 'propagated' if propagated else 'retried'
+                    other = 'retried' if propagated else 'propagated'
+                    fam = 'sync' if helper == 'sync' else 'async'
+                    seen_here = undetermined_here.setdefault(name, {})
+                    seen_here.setdefault(what_now, kth)
+                    rec = undetermined_behaviour.setdefault((name, fam), {})
+                    rec.setdefault(what_now, (list(names), kth))
+                    ctx.count('never_limited_checked')
+                    if other in seen_here:
+                        bad.append((
+                            'unlisted/retried-then-raised',
+                            f'{name} is not on the retry-once list, yet it was retried as failure {seen_here["retried"]} and raised as failure {seen_here["propagated"]} of one call [{helper}]',
+                        ))
+                    elif other in rec:
+                        bad.append((
+                            'unlisted/retried-then-raised',
+                            f'{name} is not on the retry-once list, yet it was {what_now} as failure {kth} here and {other} as failure {rec[other][1]} of {rec[other][0]!r} [{fam}]',
+                            {'other_sequence': rec[other][0]},
+                        ))
                 continue
             if cls in ('T', 'R', 'TL'):
                 if propagated:
@@ -540,14 +740,29 @@ def run(ctx):
                     bad.append((f'{label}{chain}/not-retried{sfx}', f'{name} ({cls}){how} as failure {kth} was raised instead of retried [{helper}]'))
                 else:
                     ctx.count(f'retried[{cls}]')
+                    if name in nb_family:
+                        ctx.count('neighbour:retryable_retried')
                     for h in (hcls, amb_cls):
                         if h is not None:
                             ctx.count('implicit_context:retryable_while_handling_' + ('P' if h == 'P' else 'retryable'))
             elif cls == 'P':
+                fam = nb_family.get(name)
                 if not propagated:
-                    bad.append((f'permanent/retried{sfx}', f'{name}{how} as failure {kth} was retried [{helper}]'))
+                    nsfx = '/unlisted-neighbour' if fam is not None else ''
+                    bad.append((f'permanent/retried{nsfx}{sfx}', f'{name}{how} as failure {kth} was retried [{helper}]'))
                 else:
                     ctx.count('propagated[P]')
+                    if fam is not None:
+                        ctx.count('neighbour:P_propagated')
+                        ctx.count(f'neighbour:P_propagated[{fam}]')
+                        if kth <= 5 and helper != 'sync':
+                            ctx.count('neighbour:P_propagated_within_first_five_failures')
+                            x, depth = raised_objs[idx], 0
+                            while x is not None and depth < 8:
+                                if isinstance(x, ConnectionError):  # base of both retry-once classes, neither of them (class P)
+                                    ctx.count('neighbour:P_sibling_of_retry_once_classes_within_first_five_failures')
+                                    break
+                                x, depth = x.__cause__, depth + 1
                     for h in (hcls, amb_cls):
                         if h is not None:
                             ctx.count(f'implicit_context:P_while_handling_{h}')
@@ -557,6 +772,8 @@ def run(ctx):
                     ctx.count('sync_limited_not_judged')
                 elif n_L >= 6:
                     ctx.count('limited_sixth_occurrence_checked')
+                    if name in nb_family:
+                        ctx.count('neighbour:limited_sixth_occurrence_checked')
                     if any(h in ('T', 'R', 'TL') for h in (hcls, amb_cls)):
                         ctx.count('implicit_context:limited_sixth_while_handling_transient')
                     if not propagated:
@@ -605,11 +822,13 @@ def run(ctx):
 
     def report(bad, helper, names, out, n_calls, ambient=None):
         seen = set()
-        for key, what in bad:
+        for key, what, *extra in bad:
             if key in seen:
                 continue
             seen.add(key)
             w = {'helper': helper, 'sequence': list(names), 'calls': n_calls, 'outcome': [out[0], repr(out[1])]}
+            for x in extra:
+                w.update(x)
             if ambient is not None:
                 w['ambient'] = ambient
             ctx.violation(key, what, witness=w)
@@ -716,14 +935,52 @@ def run(ctx):
                 if stop:
                     break
 
+        def neighbour_sequences():
+            """every generated neighbour row (and every undetermined row) at the positions that matter for the loop's branch order: as the only
+            failure, after transient / rate-limit / limited failures, as the 5th and the 6th failure (the limited-retry window ends between them),
+            and seven times in a row (limited rows: sixth occurrence; undetermined rows: never-limited)"""
+            t0, t1, r0, l0 = 'asyncio.TimeoutError', 'aiohttp-503', 'aiohttp-429', 'ConnectionResetError-bare'
+            for k, (name, cls, _, family) in enumerate(NB):
+                yield (name,)
+                yield (t0, name)
+                yield (name,) * 7
+                if ctx.quick and family in ('status', 'errno-aiohttp') and cls == 'P' and k % 3:
+                    continue  # quick tier: the remaining positions for a third of the two big sweeps only
+                yield (r0, t1, name)
+                yield (l0, name)
+                yield (t0,) * 4 + (name,)
+                yield (t1,) * 5 + (name,)
+                if cls != 'P':
+                    yield (name, 'ValueError')
+                    yield (name, t0, name, 'OSError[ECONNABORTED]')
+            for name, _ in U:
+                for seq in ((name,), (t0, name), (name,) * 7, (r0, t1, name), (l0, name), (t0,) * 4 + (name,), (t1,) * 5 + (name,), (name, 'ValueError')):
+                    yield seq
+
+        async def neighbour_main(loop):
+            m = 0
+            for names in neighbour_sequences():
+                m += 1
+                if m % ctx.n_shards != ctx.shard:
+                    continue
+                for helper in (('plain', 'debug', 'delayed')[m % 3], 'sync'):
+                    rng = ctx.rng('neighbour', m, helper)
+                    bad, out, n_calls = await evaluate(loop, helper, names, rng)
+                    ctx.case(sample={'helper': helper, 'sequence': list(names), 'calls': n_calls, 'outcome': out[0]}, key=(helper, names), nontrivial=True)
+                    ctx.count('sequences_neighbour')
+                    report(bad, helper, names, out, n_calls)
+
         ctx.set_time_budget(ctx.pick(45, 480))
         if ctx.replay is None:
+            run_virtual(neighbour_main, start=0.0, max_steps=None)
             run_virtual(enum_main, start=0.0, max_steps=None)
         elif ctx.replay.get('case_index') is None and isinstance(ctx.replay.get('witness'), dict) and 'sequence' in ctx.replay['witness']:
             w = ctx.replay['witness']
 
             async def replay_main(loop):
                 names = tuple(w['sequence'])
+                if w.get('other_sequence') is not None:  # never-limited oracle across two calls: run the earlier one first
+                    await evaluate(loop, w['helper'], tuple(w['other_sequence']), ctx.rng('replay-other'))
                 known = all(parse_tok(n)[0] in by_name for n in names)
                 bad, out, n_calls = await evaluate(loop, w['helper'], names, ctx.rng('replay'), judged=known, factories=None if known else dict(U), ambient=w.get('ambient'))
                 ctx.case(sample=w, key=(w['helper'], names, w.get('ambient')))
@@ -789,6 +1046,36 @@ def run(ctx):
             ctx.case(sample={'helper': helper, 'sequence': list(names), 'ambient': amb, 'calls': n_calls, 'outcome': out[0]}, key=(helper, names, amb), nontrivial=len(names) > 0)
             ctx.count('sequences_random_context')
             report(bad, helper, names, out, n_calls, ambient=amb)
+
+        # ---- phase random-neighbour: seeded sequences mixing catalogue rows with the generated neighbour rows and the undetermined rows ----
+        nb_names = [n for n, _, _, _ in NB]
+        nb_small = [n for n, _, _, f in NB if f not in ('status', 'errno', 'errno-aiohttp')]  # the class-shaped rows, so that the two big sweeps do not drown them
+        u_names = [n for n, _ in U]
+        for _i, rng in ctx.cases(ctx.pick(2500, 15000), 'random-neighbour'):
+            helper = rng.choice(['plain', 'debug', 'delayed', 'plain', 'debug', 'sync'])
+            length = rng.choice([1, 2, 3, 4, 5, 6, 7, 9, 12])
+            p_nb = rng.choice([0.2, 0.5, 1.0])
+            p_dec = rng.choice([0.0, 0.0, 0.2])
+            names = []
+            for _ in range(length):
+                r = rng.random()
+                if r < p_nb:
+                    nm = rng.choice(rng.choice([nb_names, nb_small, nb_small, u_names]))
+                else:
+                    nm = rng.choice(nonperm_all)
+                if rng.random() < p_dec:
+                    mode = rng.choice([m for m in CONTEXT_MODES if mode_applies(m, nm)])
+                    nm = tok(nm, mode, rng.choice(all_names))
+                names.append(nm)
+            names = tuple(names)
+
+            async def main(loop, helper=helper, names=names, rng=rng):
+                return await evaluate(loop, helper, names, rng)
+
+            bad, out, n_calls = run_virtual(main, start=0.0, max_steps=None)
+            ctx.case(sample={'helper': helper, 'sequence': list(names), 'calls': n_calls, 'outcome': out[0]}, key=(helper, names), nontrivial=True)
+            ctx.count('sequences_random_neighbour')
+            report(bad, helper, names, out, n_calls)
 
         # ---- undetermined rows: executed and recorded, classification not judged --------------------
         if ctx.replay is None and ctx.shard == 0:
@@ -871,3 +1158,18 @@ def run(ctx):
 #   N4  asyncio.TimeoutError raised while handling a non-timeout is permanent   caught  transient/not-retried/implicit-context
 #   N5  sync_retry_transient_errors alone also accepts a transient __context__  caught  permanent/retried/implicit-context [sync]
 #   N6  only the __cause__ of the __context__ is followed                       caught  permanent/retried/implicit-context (mode except-wrapped-cause)
+#
+# Neighbourhood clause (added 2026-09-22 after seeded/C21-agent8 was missed: the only OSError-family permanent rows were FileNotFoundError, PermissionError and
+# OSError(ENOSPC), the only unlisted statuses six 4xx ones; ConnectionAbortedError / BrokenPipeError() were run but "not judged", and a not-judged row was a
+# single failure, so a limited-retry treatment of it could not be told from a transient one).  'OSError-ECONNABORTED' stays in the not-judged list under its old
+# name; the same value is now also the judged row 'OSError[ECONNABORTED]' (class P: its errno is on no list and its class is not a retry-once class).
+# Scratch worktree, quick tier, seed 0, one edit at a time; unchanged tree silent: quick seeds 0..4, thorough seeds 0..2.
+#   seeded/C21-agent8  is_limited_retries_error tests isinstance(e, ConnectionError)   caught  permanent/retried/unlisted-neighbour (+ /implicit-context), unlisted/retried-then-raised
+#   seeded/C21-agent2, -agent4, -agent6                                                 still caught (same keys as before)
+#   N7  ECONNABORTED added to RETRYABLE_ERRNOS                                          caught  permanent/retried/unlisted-neighbour
+#   N8  is_transient_error accepts every builtin ConnectionError                        caught  permanent/retried/unlisted-neighbour, limited/more-than-five-retries
+#   N9  aiohttp response errors with any status >= 500 are transient                    caught  permanent/retried/unlisted-neighbour
+#   N11 BrokenPipeError added to the two retry-once classes                             caught  unlisted/retried-then-raised (only the never-limited oracle sees it)
+#   N12 aiohttp.ClientConnectionError treated as a retry-once error                     caught  permanent/retried/unlisted-neighbour, unlisted/retried-then-raised
+# Not in the workload (would not be a classification question): aiohttp.ClientPayloadError() constructed without arguments makes is_transient_error itself raise
+# IndexError (`e.args[0]`), reported to the lead as a defect candidate.
